@@ -37,7 +37,7 @@ def farr(rows):
 def gen_cases(rng, n):
     cases = []
     for i in range(n):
-        kind = ["delay", "nvar", "concat", "fanin", "cwr"][i % 5] if i >= 10 else ["delay", "nvar"][i % 2]
+        kind = ["delay", "nvar", "concat", "fanin", "cwr", "fanin2"][i % 6] if i >= 10 else ["delay", "nvar"][i % 2]
         if kind == "delay":
             d = rng.choice([0, 1, 1, 2, 3, 4, 5])
             dim = rng.randint(1, 3)
@@ -66,6 +66,12 @@ def gen_cases(rng, n):
             cases.append({"kind": "fanin", "child": rng.choice(["c", "aa", "_x", "Z"]), "tag": "s%d" % i,
                           "parents": [[nm, rng.randint(1, 2), [core.dyadic(rng, 4, 1), core.dyadic(rng, 4, 1)]] for nm in names],
                           "x": rand_rows(rng, 1, 2)[0]})
+        elif kind == "fanin2":
+            # two receivers with different sender sets whose names, joined, read the same: {X, YZ} and {XY, Z}
+            x, y, z = rng.choice(["p", "a", "k_"]), rng.choice(["q", "b", "0"]), rng.choice(["r", "c", "z9"])
+            mkp = lambda nm: [nm, rng.randint(1, 2), [core.dyadic(rng, 4, 1), core.dyadic(rng, 4, 1)]]
+            cases.append({"kind": "fanin2", "tag": "t%d" % i, "x": rand_rows(rng, 1, 2)[0], "names": [x, y, z],
+                          "set1": [mkp("X"), mkp("YZ")], "set2": [mkp("XY"), mkp("Z")], "build": rng.choice(["merge", "edges"])})
         else:
             cases.append({"kind": "cwr", "n": rng.randint(0, 7), "k": rng.randint(0, 3)})
     return cases
@@ -103,7 +109,9 @@ def run_impl(c):
         Xa = farr(c["X"]).astype(np.int64) if c.get("int_input") else farr(c["X"])
         out = _drive(node, Xa, c.get("mode", "run"))
         buf = [np.asarray(b).ravel().tolist() for b in node.buffer]
-        return {"out": out.tolist(), "buf": buf}
+        # the caller's array of initial values is still what it was (outputs were scribbled on in "scribble" mode)
+        init_kept = init is None or bool(np.array_equal(init, farr(c["init"])))
+        return {"out": out.tolist(), "buf": buf, "init_kept": init_kept}
     if c["kind"] == "nvar":
         node = NVAR(delay=c["delay"], order=c["order"], strides=c["strides"], name=uname("nvar"))
         Xa = farr(c["X"]).astype(np.int64) if c.get("int_input") else farr(c["X"])
@@ -135,6 +143,36 @@ def run_impl(c):
         out = model.call(farr([c["x"]]))
         cats = [n.name for n in model.nodes if isinstance(n, Concat)]
         return {"out": np.asarray(out).ravel().tolist(), "tag": tag, "concat": cats}
+    if c["kind"] == "fanin2":
+        from reservoirpy.model import Model
+        def mk(nm, width, coefs):
+            def fwd(node, x):
+                return np.concatenate([x[:, :1] * float(Fraction(coefs[j])) for j in range(width)], axis=1)
+            def init(node, x=None, **kw):
+                node.set_input_dim(x.shape[1]); node.set_output_dim(width)
+            return Node(forward=fwd, initializer=init, name=nm)
+        def ident(nm):
+            def ci(node, x=None, **kw):
+                node.set_input_dim(x.shape[1]); node.set_output_dim(x.shape[1])
+            return Node(forward=lambda node, x: x, initializer=ci, name=nm)
+        T = c["tag"] + "u%d" % _uid[0]
+        _uid[0] += 1
+        x, y, z = c["names"]
+        real = {"X": x + T, "YZ": y + z + T, "XY": x + T + y, "Z": z + T}      # X+YZ == XY+Z as strings
+        src = Input(name="in" + T)
+        s1 = [mk(real[nm], w, co) for nm, w, co in c["set1"]]; s2 = [mk(real[nm], w, co) for nm, w, co in c["set2"]]
+        r1, r2 = ident("r1" + T), ident("r2" + T)
+        if c["build"] == "merge":
+            model = (src >> s1) & (src >> s2) & Model(s1 + s2 + [r1, r2], [(p, r1) for p in s1] + [(p, r2) for p in s2])
+        else:
+            model = Model([src] + s1 + s2 + [r1, r2], [(src, p) for p in s1 + s2] + [(p, r1) for p in s1] + [(p, r2) for p in s2])
+        res = model.call(farr([c["x"]]))
+        feeds = {}
+        for a, b in model.edges:
+            if isinstance(a, Concat):
+                feeds.setdefault(b.name, []).append(a.name)
+        return {"out1": np.asarray(res[r1.name]).ravel().tolist(), "out2": np.asarray(res[r2.name]).ravel().tolist(), "real": real,
+                "cat1": feeds.get(r1.name, []), "cat2": feeds.get(r2.name, [])}
     if c["kind"] == "cwr":
         return {"idx": [list(t) for t in itertools.combinations_with_replacement(range(c["n"]), c["k"])]}
     raise ValueError(c["kind"])
@@ -156,6 +194,15 @@ def to_coq(c, o):
             return "false"
         # the parents' common child is the automatically inserted Concat node, whose (generated) name is observed
         return "chk_fanin %s %s %s" % (coqstr(o["concat"][0]), coqlist(ps), qvec(o["out"]))
+    if c["kind"] == "fanin2":
+        x0 = c["x"][0]
+        terms = []
+        for key, cats, out in (("set1", o["cat1"], o["out1"]), ("set2", o["cat2"], o["out2"])):
+            if len(cats) != 1:
+                return "false"
+            ps = ["(%s, %s)" % (coqstr(o["real"][nm]), qvec([Fraction(x0) * Fraction(co[j]) for j in range(w)])) for nm, w, co in c[key]]
+            terms.append("chk_fanin %s %s %s" % (coqstr(cats[0]), coqlist(ps), qvec(out)))
+        return "andb (%s) (%s)" % tuple(terms)
     if c["kind"] == "cwr":
         return "chk_cwr %s %s %s" % (nat(c["n"]), nat(c["k"]),
                                      coqlist([coqlist([nat(i) for i in t]) for t in o["idx"]]))
@@ -168,8 +215,8 @@ def nontrivial(c, o):
         return len(c["X"]) > c["strides"] and any(v != 0 for r in o["out"] for v in r)
     if c["kind"] == "concat":
         return True
-    if c["kind"] == "fanin":
-        return len(c["parents"]) >= 2
+    if c["kind"] in ("fanin", "fanin2"):
+        return True if c["kind"] == "fanin2" else len(c["parents"]) >= 2
     return c["n"] >= 2 and c["k"] >= 2
 
 
@@ -224,6 +271,9 @@ def _judge(c):
     except Exception as e:
         return _viol("%s:exception" % c["kind"], "valid %s scenario raises %r" % (c["kind"], e), c)
     if c["kind"] == "delay":
+        if not o.get("init_kept", True):
+            return _viol("delay:initial-values-aliased", "overwriting an array returned by Delay changed the caller's initial_values array "
+                         "(outputs are views of it)", c)
         X = [[Fraction(v) for v in r] for r in c["X"]]
         init = c["init"] if c["init"] is not None else [[0] * c["dim"]] * c["delay"]
         d = c["delay"]
@@ -254,6 +304,11 @@ def _judge(c):
         vals = sorted(float(Fraction(c["x"][0]) * Fraction(co[j])) for nm, w, co in c["parents"] for j in range(w))
         if sorted(o["out"]) != vals:
             return _viol("fanin:content", "fan-in concatenation does not contain each parent's output exactly once", c, vals, o["out"])
+    elif c["kind"] == "fanin2":
+        for key, out in (("set1", o["out1"]), ("set2", o["out2"])):
+            vals = sorted(float(Fraction(c["x"][0]) * Fraction(co[j])) for nm, w, co in c[key] for j in range(w))
+            if sorted(out) != vals:
+                return _viol("fanin:content", "receiver %s of a model with two fan-ins does not get exactly its own senders' outputs once each" % key, c, vals, out)
     return None
 
 
